@@ -1,6 +1,7 @@
 SPECIFICATION Spec
 CONSTANTS
   GeomStride = 1
+  AllUnits = TRUE
 CONSTRAINT Export
 INVARIANT LawClosedContains
 INVARIANT LawClosedMonotone
